@@ -1,9 +1,11 @@
 package main
 
 import (
+	"bytes"
 	"flag"
 	"fmt"
 	"math/big"
+	"os"
 	"path/filepath"
 	"sort"
 	"strings"
@@ -11,6 +13,8 @@ import (
 
 	sdk "github.com/cosmos/cosmos-sdk/types"
 
+	bcntypes "github.com/unification-com/mainchain/x/beacon/types"
+	enttypes "github.com/unification-com/mainchain/x/enterprise/types"
 	strtypes "github.com/unification-com/mainchain/x/stream/types"
 	wrktypes "github.com/unification-com/mainchain/x/wrkchain/types"
 )
@@ -425,6 +429,1017 @@ func strStoreHistory(c *chain, r *rng, nops int, mon *storeMon, kinds map[string
 	return ops
 }
 
+// ---- x/beacon and x/enterprise ----
+
+// rawKeys lists the keys a module's store holds in ctx.  Setup only (the accessors under test are the keeper's): a
+// history either starts from the wiped store (the model starts from the EMPTY store) or re-plays the genesis content
+// through the keeper after checking here that the genesis holds nothing else.
+func rawKeys(ctx sdk.Context, c *chain, storeKey string) [][]byte {
+	it := ctx.KVStore(c.app.GetKey(storeKey)).Iterator(nil, nil)
+	defer it.Close()
+	var out [][]byte
+	for ; it.Valid(); it.Next() {
+		out = append(out, append([]byte{}, it.Key()...))
+	}
+	return out
+}
+
+func wipeStore(ctx sdk.Context, c *chain, storeKey string) {
+	st := ctx.KVStore(c.app.GetKey(storeKey))
+	for _, k := range rawKeys(ctx, c, storeKey) {
+		st.Delete(k)
+	}
+	if n := len(rawKeys(ctx, c, storeKey)); n != 0 {
+		panic(fmt.Sprintf("store %s not empty after wipe: %d keys", storeKey, n))
+	}
+}
+
+func coqBeacon(b bcntypes.Beacon, owner int) string {
+	return fmt.Sprintf("(mk_go_Beacon %s %s %s %s %s %s %s %s)", coqU(b.BeaconId), coqString(b.Moniker), coqString(b.Name), coqU(b.LastTimestampId), coqU(b.FirstIdInState),
+		coqU(b.NumInState), coqU(b.RegTime), coqZi(int64(owner)))
+}
+
+func coqBcnTs(t bcntypes.BeaconTimestamp) string {
+	return fmt.Sprintf("(mk_go_BeaconTimestamp %s %s %s)", coqU(t.TimestampId), coqU(t.SubmitTime), coqString(t.Hash))
+}
+
+// the denomination index as a Coq term (-1, the empty / unknown denomination, needs its parentheses)
+func coqDenom(d string) string { return coqZi(int64(denomIndex(d))) }
+
+func coqBcnParams(p bcntypes.Params) string {
+	return fmt.Sprintf("(mk_go_Params %s %s %s %s %s %s)", coqU(p.FeeRegister), coqU(p.FeeRecord), coqU(p.FeePurchaseStorage), coqDenom(p.Denom), coqU(p.DefaultStorageLimit), coqU(p.MaxStorageLimit))
+}
+
+// genesis facts recorded for the statistics file
+var storeGenesisNotes = map[string]interface{}{}
+
+// one beacon history; returns the Coq ops
+func bcnStoreHistory(c *chain, r *rng, nops int, mon *storeMon, kinds map[string]int) []string {
+	ctx, _ := c.ctx().CacheContext()
+	k := c.app.BeaconKeeper
+	var ops []string
+	add := func(kind, s string) { ops = append(ops, s); kinds["bcn."+kind]++ }
+	// shadow state
+	beacons := map[uint64]bcntypes.Beacon{}
+	limits := map[uint64]uint64{}
+	type tk struct{ id, t uint64 }
+	stamps := map[tk]bcntypes.BeaconTimestamp{}
+	ownerIx := func(s string) int {
+		if s == "" {
+			return -100
+		}
+		for i := 0; i < 6; i++ {
+			if c.addrOf(i).String() == s {
+				return i
+			}
+		}
+		return -999
+	}
+	var params bcntypes.Params
+	highest, hasHighest := uint64(0), false
+	// the genesis of fixedCfg() holds the parameters and the highest id and nothing else
+	gen := rawKeys(ctx, c, bcntypes.StoreKey)
+	storeGenesisNotes["beacon_genesis_keys"] = len(gen)
+	if len(gen) != 2 || !bytes.Equal(gen[0], bcntypes.ParamsKey) && !bytes.Equal(gen[1], bcntypes.ParamsKey) {
+		panic(fmt.Sprintf("beacon genesis store: expected exactly the params and the highest id, found %x", gen))
+	}
+	if r.chance(1, 2) {
+		// from the wiped store: nothing is set until an operation sets it
+		wipeStore(ctx, c, bcntypes.StoreKey)
+		kinds["bcn.history_from_wiped_store"]++
+		if _, err := k.GetHighestBeaconID(ctx); err == nil {
+			mon.fail(0, "GetHighestBeaconID on the empty store does not err")
+		}
+		add("get_highest", "BoGetHighest None")
+		got := k.GetParams(ctx)
+		if got != (bcntypes.Params{}) {
+			mon.fail(1, "beacon GetParams on the empty store returns %v", got)
+		}
+		add("get_params", "BoGetParams "+coqBcnParams(got))
+	} else {
+		// re-play the genesis content through the keeper
+		kinds["bcn.history_from_genesis"]++
+		gp := k.GetParams(ctx)
+		gh, err := k.GetHighestBeaconID(ctx)
+		if err != nil {
+			panic(err)
+		}
+		if err := k.SetParams(ctx, gp); err != nil {
+			panic(err)
+		}
+		params = gp
+		add("set_params", "BoSetParams "+coqBcnParams(gp)+" true")
+		k.SetHighestBeaconID(ctx, gh)
+		highest, hasHighest = gh, true
+		add("set_highest", "BoSetHighest "+coqU(gh))
+	}
+	sortedStamps := func(id uint64) []bcntypes.BeaconTimestamp {
+		var ts []uint64
+		for key := range stamps {
+			if key.id == id {
+				ts = append(ts, key.t)
+			}
+		}
+		sort.Slice(ts, func(i, j int) bool { return ts[i] < ts[j] })
+		var out []bcntypes.BeaconTimestamp
+		for _, t := range ts {
+			out = append(out, stamps[tk{id, t}])
+		}
+		return out
+	}
+	sortedBeacons := func() []bcntypes.Beacon {
+		var ids []uint64
+		for id := range beacons {
+			ids = append(ids, id)
+		}
+		sort.Slice(ids, func(i, j int) bool { return ids[i] < ids[j] })
+		var out []bcntypes.Beacon
+		for _, id := range ids {
+			out = append(out, beacons[id])
+		}
+		return out
+	}
+	tsList := func(ts []bcntypes.BeaconTimestamp) string {
+		var xs []string
+		for _, t := range ts {
+			xs = append(xs, coqBcnTs(t))
+		}
+		return "[" + strings.Join(xs, "; ") + "]"
+	}
+	beaconList := func(bs []bcntypes.Beacon) string {
+		var xs []string
+		for _, b := range bs {
+			xs = append(xs, coqBeacon(b, ownerIx(b.Owner)))
+		}
+		return "[" + strings.Join(xs, "; ") + "]"
+	}
+	sameTs := func(a, b []bcntypes.BeaconTimestamp) bool {
+		if len(a) != len(b) {
+			return false
+		}
+		for i := range a {
+			if a[i] != b[i] {
+				return false
+			}
+		}
+		return true
+	}
+	sameBeacons := func(a, b []bcntypes.Beacon) bool {
+		if len(a) != len(b) {
+			return false
+		}
+		for i := range a {
+			if a[i] != b[i] {
+				return false
+			}
+		}
+		return true
+	}
+	prefix := func(n int, ts []bcntypes.BeaconTimestamp) []bcntypes.BeaconTimestamp {
+		if len(ts) < n {
+			return ts
+		}
+		return ts[:n]
+	}
+	for i := 0; i < nops; i++ {
+		opIx := len(ops)
+		id, t := pickID(r), pickID(r)
+		switch r.intn(20) {
+		case 0:
+			p := bcntypes.NewParams(r.next()>>uint(r.intn(64)), r.next()>>uint(r.intn(64)), r.next()>>uint(r.intn(64)), denoms[r.intn(len(denoms))], uint64(r.intn(5)), uint64(r.intn(8)))
+			if r.chance(1, 8) {
+				p.Denom = []string{"", "1x", " "}[r.intn(3)] // not a denomination
+			}
+			err := k.SetParams(ctx, p)
+			if err == nil {
+				params = p
+			}
+			add("set_params", fmt.Sprintf("BoSetParams %s %s", coqBcnParams(p), coqBool(err == nil)))
+		case 1:
+			got := k.GetParams(ctx)
+			if got != params {
+				mon.fail(opIx, "beacon GetParams returns %v, last stored %v", got, params)
+			}
+			add("get_params", "BoGetParams "+coqBcnParams(got))
+		case 2:
+			highest, hasHighest = id, true
+			k.SetHighestBeaconID(ctx, id)
+			add("set_highest", "BoSetHighest "+coqU(id))
+		case 3:
+			got, err := k.GetHighestBeaconID(ctx)
+			if (err == nil) != hasHighest || (hasHighest && got != highest) {
+				mon.fail(opIx, "GetHighestBeaconID returns %d (%v), last stored %d (stored: %v)", got, err, highest, hasHighest)
+			}
+			if err != nil {
+				add("get_highest", "BoGetHighest None")
+			} else {
+				add("get_highest", "BoGetHighest (Some "+coqU(got)+")")
+			}
+		case 4, 5, 6:
+			o := r.intn(6)
+			b := bcntypes.Beacon{BeaconId: id, Moniker: randWord(r), Name: randWord(r), LastTimestampId: pickID(r), FirstIdInState: pickID(r) % 7, NumInState: uint64(r.intn(4)),
+				RegTime: uint64(r.intn(1000)), Owner: c.addrOf(o).String()}
+			if r.chance(1, 6) {
+				b = bcntypes.Beacon{BeaconId: id, Owner: c.addrOf(o).String()} // (almost) all-zero message
+			}
+			if err := k.SetBeacon(ctx, b); err != nil {
+				panic(err)
+			}
+			beacons[id] = b
+			add("set_beacon", "BoSetBeacon "+coqBeacon(b, o))
+		case 7, 8:
+			got, found := k.GetBeacon(ctx, id)
+			want, has := beacons[id]
+			if found != has || (has && got != want) || (!has && got != (bcntypes.Beacon{})) {
+				mon.fail(opIx, "GetBeacon(%d) returns (%v, %v), last stored (%v, %v)", id, got, found, want, has)
+			}
+			add("get_beacon", fmt.Sprintf("BoGetBeacon %s (%s, %s)", coqU(id), coqBeacon(got, ownerIx(got.Owner)), coqBool(found)))
+		case 9:
+			got := k.IsBeaconRegistered(ctx, id)
+			if _, has := beacons[id]; got != has {
+				mon.fail(opIx, "IsBeaconRegistered(%d) = %v, stored %v", id, got, has)
+			}
+			add("is_reg", fmt.Sprintf("BoIsReg %s %s", coqU(id), coqBool(got)))
+		case 10:
+			all := k.GetAllBeacons(ctx)
+			want := sortedBeacons()
+			if !sameBeacons(all, want) {
+				mon.fail(opIx, "GetAllBeacons lists %d records, stored %d (ascending by id, each as last stored, expected)", len(all), len(want))
+			}
+			add("all_beacons", "BoAllBeacons "+beaconList(all))
+			var two []bcntypes.Beacon
+			k.IterateBeacons(ctx, func(b bcntypes.Beacon) bool { two = append(two, b); return len(two) >= 2 })
+			if n := min(2, len(want)); !sameBeacons(two, want[:n]) {
+				mon.fail(opIx, "IterateBeacons stopped after 2 does not give the first %d of the ascending listing", n)
+			}
+			add("beacons_stop", "BoBeaconsStop "+beaconList(two))
+		case 11:
+			l := pickID(r)
+			if err := k.SetBeaconStorageLimit(ctx, id, l); err != nil {
+				panic(err)
+			}
+			limits[id] = l
+			add("set_limit", fmt.Sprintf("BoSetLimit %s %s", coqU(id), coqU(l)))
+		case 12:
+			got, found := k.GetBeaconStorageLimit(ctx, id)
+			want, has := limits[id]
+			if !has {
+				want = bcntypes.DefaultStorageLimit
+			}
+			if found != has || got.InStateLimit != want || got.BeaconId != id {
+				mon.fail(opIx, "GetBeaconStorageLimit(%d) returns (%v, %v), stored (%d, %v)", id, got, found, want, has)
+			}
+			if k.HasBeaconStorageLimit(ctx, id) != has {
+				mon.fail(opIx, "HasBeaconStorageLimit(%d) disagrees with what was stored", id)
+			}
+			add("get_limit", fmt.Sprintf("BoGetLimit %s ((mk_go_BeaconStorageLimit %s %s), %s)", coqU(id), coqU(got.BeaconId), coqU(got.InStateLimit), coqBool(found)))
+			add("has_limit", fmt.Sprintf("BoHasLimit %s %s", coqU(id), coqBool(has)))
+		case 13, 14, 15:
+			ts := bcntypes.BeaconTimestamp{TimestampId: t, SubmitTime: uint64(r.intn(1000)), Hash: randWord(r)}
+			if r.chance(1, 8) {
+				ts = bcntypes.BeaconTimestamp{TimestampId: t}
+			}
+			if err := k.SetBeaconTimestamp(ctx, id, ts); err != nil {
+				panic(err)
+			}
+			stamps[tk{id, t}] = ts
+			add("set_ts", fmt.Sprintf("BoSetTs %s %s", coqU(id), coqBcnTs(ts)))
+		case 16:
+			got, found := k.GetBeaconTimestampByID(ctx, id, t)
+			want, has := stamps[tk{id, t}]
+			if found != has || (has && got != want) || (!has && got != (bcntypes.BeaconTimestamp{})) {
+				mon.fail(opIx, "GetBeaconTimestampByID(%d, %d) returns (%v, %v), stored (%v, %v)", id, t, got, found, want, has)
+			}
+			if k.IsBeaconTimestampRecordedByID(ctx, id, t) != has {
+				mon.fail(opIx, "IsBeaconTimestampRecordedByID(%d, %d) disagrees with what was stored", id, t)
+			}
+			add("get_ts", fmt.Sprintf("BoGetTs %s %s (%s, %s)", coqU(id), coqU(t), coqBcnTs(got), coqBool(found)))
+			add("is_recorded", fmt.Sprintf("BoIsRecorded %s %s %s", coqU(id), coqU(t), coqBool(has)))
+		case 17, 18:
+			all := k.GetAllBeaconTimestamps(ctx, id)
+			want := sortedStamps(id)
+			if !sameTs(all, want) {
+				mon.fail(opIx, "GetAllBeaconTimestamps(%d) lists %d records, stored %d (ascending by timestamp id expected)", id, len(all), len(want))
+			}
+			add("all_ts", fmt.Sprintf("BoAllTs %s %s", coqU(id), tsList(all)))
+			var rev []bcntypes.BeaconTimestamp
+			k.IterateBeaconTimestampsReverse(ctx, id, func(b bcntypes.BeaconTimestamp) bool { rev = append(rev, b); return false })
+			if len(rev) != len(want) {
+				mon.fail(opIx, "IterateBeaconTimestampsReverse(%d) visits %d of %d records", id, len(rev), len(want))
+			}
+			for j := range rev {
+				if len(rev) != len(want) || rev[j] != want[len(want)-1-j] {
+					mon.fail(opIx, "IterateBeaconTimestampsReverse(%d) is not the descending listing", id)
+					break
+				}
+			}
+			add("ts_rev", fmt.Sprintf("BoTsRev %s %s", coqU(id), tsList(rev)))
+		default:
+			want := sortedStamps(id)
+			var two []bcntypes.BeaconTimestamp
+			k.IterateBeaconTimestamps(ctx, id, func(b bcntypes.BeaconTimestamp) bool { two = append(two, b); return len(two) >= 2 })
+			if !sameTs(two, prefix(2, want)) {
+				mon.fail(opIx, "IterateBeaconTimestamps(%d) stopped after 2 does not give the two lowest stored ids", id)
+			}
+			add("first_stop", fmt.Sprintf("BoFirstStop %s %s", coqU(id), tsList(two)))
+			var one []bcntypes.BeaconTimestamp
+			k.IterateBeaconTimestampsReverse(ctx, id, func(b bcntypes.BeaconTimestamp) bool { one = append(one, b); return true })
+			if len(one) != min(1, len(want)) || (len(one) == 1 && one[0] != want[len(want)-1]) {
+				mon.fail(opIx, "IterateBeaconTimestampsReverse(%d) stopped at the first does not give the highest stored id", id)
+			}
+			add("rev_stop", fmt.Sprintf("BoRevStop %s %s", coqU(id), tsList(one)))
+		}
+	}
+	return ops
+}
+
+// ---- x/enterprise ----
+
+// the address table of the enterprise histories: the six accounts of the chain plus addresses of other lengths
+// (one byte; a byte-prefix of account 0; account 1 extended; 32 bytes; the 255-byte maximum).  Every address a
+// history stores is one of these; the table is emitted in every cases file (index <-> bytes).
+var entAddrs [][]byte
+var entAddrDefs []string
+
+func entTable(c *chain, r *rng) {
+	if entAddrs != nil {
+		return
+	}
+	for i := 0; i < 6; i++ {
+		entAddrs = append(entAddrs, append([]byte{}, c.addrOf(i)...))
+	}
+	a0, a1 := entAddrs[0], entAddrs[1]
+	entAddrs = append(entAddrs, []byte{7}, append([]byte{}, a0[:10]...), append(append([]byte{}, a1...), 0, 1))
+	b32, b255 := make([]byte, 32), make([]byte, 255)
+	for i := range b32 {
+		b32[i] = byte(r.next())
+	}
+	for i := range b255 {
+		b255[i] = byte(r.next())
+	}
+	entAddrs = append(entAddrs, b32, b255)
+	var rows []string
+	for i, a := range entAddrs {
+		back, err := sdk.AccAddressFromBech32(sdk.AccAddress(a).String())
+		if err != nil || !bytes.Equal(back, a) {
+			panic(fmt.Sprintf("table address %d (%d bytes) does not survive String / AccAddressFromBech32: %v", i, len(a), err))
+		}
+		entAddrDefs = append(entAddrDefs, fmt.Sprintf("Definition ea_%d : list N := %s.", i, coqBytes(a)))
+		rows = append(rows, fmt.Sprintf("(%d, ea_%d)", i, i))
+	}
+	entAddrDefs = append(entAddrDefs, "Definition addr_table : list (Z * list N) := ["+strings.Join(rows, "; ")+"].")
+}
+
+// the index of a string: "" is the empty address (go_zero_addr), the bech32 of a table address its index, anything
+// else BAD_ADDR
+func entIx(s string) int {
+	if s == "" {
+		return -100
+	}
+	for i, a := range entAddrs {
+		if sdk.AccAddress(a).String() == s {
+			return i
+		}
+	}
+	return -999
+}
+
+func entRef(bz []byte) string {
+	if len(bz) == 0 {
+		return "[]"
+	}
+	for i, a := range entAddrs {
+		if bytes.Equal(a, bz) {
+			return fmt.Sprintf("ea_%d", i)
+		}
+	}
+	return coqBytes(bz)
+}
+
+func coqCoin(c sdk.Coin) string {
+	if c.Amount.IsNil() {
+		return fmt.Sprintf("(%s, 0)", coqDenom(c.Denom))
+	}
+	return fmt.Sprintf("(%s, %s)", coqDenom(c.Denom), coqZ(c.Amount.BigInt()))
+}
+
+// EntSigners is a comma-separated list; the empty string is the empty list.  An empty element ("a," - strings.Split
+// gives "") is the empty string, go_zero_addr.
+func coqSigners(s string) string {
+	if s == "" {
+		return "[]"
+	}
+	var xs []string
+	for _, a := range strings.Split(s, ",") {
+		xs = append(xs, coqZi(int64(entIx(a))))
+	}
+	return "[" + strings.Join(xs, "; ") + "]"
+}
+
+func coqEntParams(p enttypes.Params) string {
+	return fmt.Sprintf("(mk_go_Params %s %s %s %s)", coqSigners(p.EntSigners), coqDenom(p.Denom), coqU(p.MinAccepts), coqU(p.DecisionTimeLimit))
+}
+
+func coqPO(po enttypes.EnterpriseUndPurchaseOrder) string {
+	var ds []string
+	for _, d := range po.Decisions {
+		ds = append(ds, fmt.Sprintf("(mk_go_PurchaseOrderDecision %s %s %s)", coqZi(int64(entIx(d.Signer))), coqZi(int64(d.Decision)), coqU(d.DecisionTime)))
+	}
+	return fmt.Sprintf("(mk_go_EnterpriseUndPurchaseOrder %s %s %s %s %s %s [%s])", coqU(po.Id), coqZi(int64(entIx(po.Purchaser))), coqCoin(po.Amount), coqZi(int64(po.Status)),
+		coqU(po.RaiseTime), coqU(po.CompletionTime), strings.Join(ds, "; "))
+}
+
+func coqLocked(l enttypes.LockedUnd) string {
+	return fmt.Sprintf("(mk_go_LockedUnd %s %s)", coqZi(int64(entIx(l.Owner))), coqCoin(l.Amount))
+}
+
+func coqSpent(l enttypes.SpentEFUND) string {
+	return fmt.Sprintf("(mk_go_SpentEFUND %s %s)", coqZi(int64(entIx(l.Owner))), coqCoin(l.Amount))
+}
+
+func sortedKeysU(m map[uint64]bool) []uint64 {
+	var ids []uint64
+	for id := range m {
+		ids = append(ids, id)
+	}
+	sort.Slice(ids, func(i, j int) bool { return ids[i] < ids[j] })
+	return ids
+}
+
+func coqUList(xs []uint64) string {
+	var out []string
+	for _, x := range xs {
+		out = append(out, coqU(x))
+	}
+	return "[" + strings.Join(out, "; ") + "]"
+}
+
+func sameU(a, b []uint64) bool {
+	if len(a) != len(b) {
+		return false
+	}
+	for i := range a {
+		if a[i] != b[i] {
+			return false
+		}
+	}
+	return true
+}
+
+// one enterprise history; returns the Coq ops
+func entStoreHistory(c *chain, r *rng, nops int, mon *storeMon, kinds map[string]int) []string {
+	ctx, _ := c.ctx().CacheContext()
+	k := c.app.EnterpriseKeeper
+	entTable(c, r)
+	var ops []string
+	add := func(kind, s string) { ops = append(ops, s); kinds["ent."+kind]++ }
+	// shadow state: values are kept as their Coq rendering (what the model must hold as well)
+	var params enttypes.Params
+	highest, hasHighest := uint64(0), false
+	pos := map[uint64]string{}
+	raised, accepted := map[uint64]bool{}, map[uint64]bool{}
+	wl := map[string]bool{}
+	var totalLocked, totalSpent *sdk.Coin
+	locked, spent := map[string]string{}, map[string]string{}
+	lockedPos := map[string]bool{}
+	lockedAmt, spentAmt := map[string]string{}, map[string]string{}
+	sortedAddrs := func(has func(string) bool) []string {
+		var ks []string
+		for _, a := range entAddrs {
+			if has(string(a)) {
+				ks = append(ks, string(a))
+			}
+		}
+		sort.Slice(ks, func(i, j int) bool { return bytes.Compare([]byte(ks[i]), []byte(ks[j])) < 0 })
+		return ks
+	}
+	zeroCoin := func() string { return fmt.Sprintf("(%s, 0)", coqDenom(params.Denom)) }
+	randCoin := func(allowNeg bool) sdk.Coin {
+		d := denoms[r.intn(len(denoms))]
+		var x *big.Int
+		switch r.intn(8) {
+		case 0:
+			x = big.NewInt(0)
+		case 1:
+			x = new(big.Int).Add(new(big.Int).Lsh(big.NewInt(1), 70), big.NewInt(int64(r.intn(1000))))
+		case 2:
+			x = big.NewInt(int64(r.intn(100000)))
+			if allowNeg {
+				x = big.NewInt(-1 - int64(r.intn(1000)))
+			}
+		default:
+			x = big.NewInt(int64(1 + r.intn(1000000)))
+		}
+		return sdk.Coin{Denom: d, Amount: sdk.NewIntFromBigInt(x)}
+	}
+	// an owner / purchaser / signer string and (for documentation) whether it parses
+	randOwner := func() string {
+		switch r.intn(12) {
+		case 0:
+			return ""
+		case 1:
+			return []string{"not-an-address", "und1qqqqqqqqqqqqqqqqqqqqqqqqqqqqqqqq5x8kpX", "cosmos1qqqqqqqqqqqqqqqqqqqqqqqqqqqqqqqqnrql8a"}[r.intn(3)]
+		}
+		return sdk.AccAddress(entAddrs[r.intn(len(entAddrs))]).String()
+	}
+	pickAddr := func() []byte {
+		if r.chance(1, 10) {
+			return nil
+		}
+		return entAddrs[r.intn(len(entAddrs))]
+	}
+	validParams := func() enttypes.Params {
+		n := 1 + r.intn(3)
+		var ss []string
+		for j := 0; j < n; j++ {
+			ss = append(ss, sdk.AccAddress(entAddrs[r.intn(len(entAddrs))]).String())
+		}
+		return enttypes.Params{EntSigners: strings.Join(ss, ","), Denom: denoms[r.intn(len(denoms))], MinAccepts: uint64(1 + r.intn(n)), DecisionTimeLimit: 1 + r.next()>>uint(r.intn(64))}
+	}
+	setParams := func(p enttypes.Params) {
+		err := k.SetParams(ctx, p)
+		if err == nil {
+			params = p
+		}
+		add("set_params", fmt.Sprintf("EoSetParams %s %s", coqEntParams(p), coqBool(err == nil)))
+	}
+	// the genesis of fixedCfg(): parameters, highest purchase order id, the whitelist, total locked, total spent
+	gen := rawKeys(ctx, c, enttypes.StoreKey)
+	gwl := k.GetAllWhitelistedAddresses(ctx)
+	storeGenesisNotes["enterprise_genesis_keys"] = len(gen)
+	storeGenesisNotes["enterprise_genesis_whitelist"] = len(gwl)
+	if len(gen) != 4+len(gwl) || len(k.GetAllPurchaseOrders(ctx))+len(k.GetAllLockedUnds(ctx))+len(k.GetAllSpentEFUNDs(ctx))+len(k.GetAllRaisedPurchaseOrders(ctx))+len(k.GetAllAcceptedPurchaseOrders(ctx)) != 0 {
+		panic(fmt.Sprintf("enterprise genesis store: expected params, highest id, totals and %d whitelist entries only, found %x", len(gwl), gen))
+	}
+	if r.chance(1, 2) {
+		wipeStore(ctx, c, enttypes.StoreKey)
+		kinds["ent.history_from_wiped_store"]++
+		if _, ok := storeGenesisNotes["enterprise_GetTotalLockedUnd_on_store_without_params"]; !ok {
+			// no parameters stored: the default coin has the empty denomination, which sdk.NewInt64Coin refuses
+			res := "returns"
+			if !safely(func() { k.GetTotalLockedUnd(ctx) }) {
+				res = "panics"
+			}
+			storeGenesisNotes["enterprise_GetTotalLockedUnd_on_store_without_params"] = res
+		}
+		if _, err := k.GetHighestPurchaseOrderID(ctx); err == nil {
+			mon.fail(0, "GetHighestPurchaseOrderID on the empty store does not err")
+		}
+		add("get_highest", "EoGetHighest None")
+		got := k.GetParams(ctx)
+		if got != (enttypes.Params{}) {
+			mon.fail(1, "enterprise GetParams on the empty store returns %v", got)
+		}
+		add("get_params", "EoGetParams "+coqEntParams(got))
+		if all := k.GetAllWhitelistedAddresses(ctx); len(all) != 0 {
+			mon.fail(2, "whitelist of the empty store lists %d addresses", len(all))
+		}
+		add("wl_all", "EoWlAll []")
+		setParams(validParams())
+		if params.Denom == "" {
+			panic("valid parameters refused")
+		}
+	} else {
+		// re-play the genesis content through the keeper
+		kinds["ent.history_from_genesis"]++
+		gp := k.GetParams(ctx)
+		setParams(gp)
+		if params != gp {
+			panic("genesis parameters refused")
+		}
+		gh, err := k.GetHighestPurchaseOrderID(ctx)
+		if err != nil {
+			panic(err)
+		}
+		k.SetHighestPurchaseOrderID(ctx, gh)
+		highest, hasHighest = gh, true
+		add("set_highest", "EoSetHighest "+coqU(gh))
+		for _, s := range gwl {
+			a, err := sdk.AccAddressFromBech32(s)
+			if err != nil || entIx(s) < 0 {
+				panic("genesis whitelist entry outside the address table: " + s)
+			}
+			if err := k.AddAddressToWhitelist(ctx, a); err != nil {
+				panic(err)
+			}
+			wl[string(a)] = true
+			add("wl_add", fmt.Sprintf("EoWlAdd %s true", entRef(a)))
+		}
+		tl, ts := k.GetTotalLockedUnd(ctx), k.GetTotalSpentEFUND(ctx)
+		if err := k.SetTotalLockedUnd(ctx, tl); err != nil {
+			panic(err)
+		}
+		totalLocked = &tl
+		add("set_total_locked", "EoSetTotalLocked "+coqCoin(tl))
+		if err := k.SetTotalSpentEFUND(ctx, ts); err != nil {
+			panic(err)
+		}
+		totalSpent = &ts
+		add("set_total_spent", "EoSetTotalSpent "+coqCoin(ts))
+	}
+	poList := func(ps []enttypes.EnterpriseUndPurchaseOrder) (string, []string) {
+		var xs []string
+		for _, p := range ps {
+			xs = append(xs, coqPO(p))
+		}
+		return "[" + strings.Join(xs, "; ") + "]", xs
+	}
+	wantPOs := func() []string {
+		m := map[uint64]bool{}
+		for id := range pos {
+			m[id] = true
+		}
+		var out []string
+		for _, id := range sortedKeysU(m) {
+			out = append(out, pos[id])
+		}
+		return out
+	}
+	sameS := func(a, b []string) bool {
+		if len(a) != len(b) {
+			return false
+		}
+		for i := range a {
+			if a[i] != b[i] {
+				return false
+			}
+		}
+		return true
+	}
+	firstN := func(n int, xs []string) []string {
+		if len(xs) < n {
+			return xs
+		}
+		return xs[:n]
+	}
+	for i := 0; i < nops; i++ {
+		opIx := len(ops)
+		id := pickID(r)
+		a := pickAddr()
+		ar := entRef(a)
+		switch r.intn(42) {
+		case 0:
+			p := validParams()
+			switch r.intn(8) {
+			case 0:
+				p.Denom = []string{"", "1x", " "}[r.intn(3)]
+			case 1:
+				p.MinAccepts = 0
+			case 2:
+				p.DecisionTimeLimit = 0
+			case 3:
+				p.EntSigners = ""
+			case 4:
+				p.EntSigners += ",not-an-address"
+			case 5:
+				p.MinAccepts = uint64(len(strings.Split(p.EntSigners, ",")) + 1)
+			case 6:
+				if emptySignerElems {
+					p.EntSigners += "," // an empty element
+				}
+			}
+			setParams(p)
+		case 1:
+			got := k.GetParams(ctx)
+			if got != params {
+				mon.fail(opIx, "enterprise GetParams returns %v, last stored %v", got, params)
+			}
+			add("get_params", "EoGetParams "+coqEntParams(got))
+		case 2:
+			highest, hasHighest = id, true
+			k.SetHighestPurchaseOrderID(ctx, id)
+			add("set_highest", "EoSetHighest "+coqU(id))
+		case 3:
+			got, err := k.GetHighestPurchaseOrderID(ctx)
+			if (err == nil) != hasHighest || (hasHighest && got != highest) {
+				mon.fail(opIx, "GetHighestPurchaseOrderID returns %d (%v), last stored %d (stored: %v)", got, err, highest, hasHighest)
+			}
+			if err != nil {
+				add("get_highest", "EoGetHighest None")
+			} else {
+				add("get_highest", "EoGetHighest (Some "+coqU(got)+")")
+			}
+		case 4, 5, 6, 7:
+			po := enttypes.EnterpriseUndPurchaseOrder{Id: id, Purchaser: randOwner(), Amount: randCoin(r.chance(1, 4)), Status: enttypes.PurchaseOrderStatus(1 + r.intn(4)),
+				RaiseTime: uint64(r.intn(100000)), CompletionTime: uint64(r.intn(3)) * pickID(r)}
+			for j := r.intn(4); j > 0; j-- {
+				po.Decisions = append(po.Decisions, enttypes.PurchaseOrderDecision{Signer: randOwner(), Decision: enttypes.PurchaseOrderStatus(r.intn(6)), DecisionTime: uint64(r.intn(100000))})
+			}
+			if r.chance(1, 5) {
+				po.Status = enttypes.PurchaseOrderStatus([]int32{0, 5, -1, 99, 1 << 30}[r.intn(5)])
+			}
+			valid := po.Status >= 1 && po.Status <= 4
+			err := k.SetPurchaseOrder(ctx, po)
+			if (err == nil) != valid {
+				mon.fail(opIx, "SetPurchaseOrder with status %d: error %v", po.Status, err)
+			}
+			if err == nil {
+				pos[id] = coqPO(po)
+			}
+			add("set_po", fmt.Sprintf("EoSetPO %s %s", coqPO(po), coqBool(err == nil)))
+		case 8, 9:
+			got, found := k.GetPurchaseOrder(ctx, id)
+			want, has := pos[id]
+			if !has {
+				want = coqPO(enttypes.EnterpriseUndPurchaseOrder{})
+			}
+			if found != has || coqPO(got) != want {
+				mon.fail(opIx, "GetPurchaseOrder(%d) returns (%v, %v), last stored (%s, %v)", id, got, found, want, has)
+			}
+			if k.PurchaseOrderExists(ctx, id) != has {
+				mon.fail(opIx, "PurchaseOrderExists(%d) disagrees with what was stored", id)
+			}
+			add("get_po", fmt.Sprintf("EoGetPO %s (%s, %s)", coqU(id), coqPO(got), coqBool(found)))
+			add("po_exists", fmt.Sprintf("EoPOExists %s %s", coqU(id), coqBool(has)))
+		case 10:
+			txt, got := poList(k.GetAllPurchaseOrders(ctx))
+			want := wantPOs()
+			if !sameS(got, want) {
+				mon.fail(opIx, "GetAllPurchaseOrders lists %d records, stored %d (ascending by id, each as last stored, expected)", len(got), len(want))
+			}
+			add("all_pos", "EoAllPOs "+txt)
+			var two []enttypes.EnterpriseUndPurchaseOrder
+			k.IteratePurchaseOrders(ctx, func(p enttypes.EnterpriseUndPurchaseOrder) bool { two = append(two, p); return len(two) >= 2 })
+			txt2, got2 := poList(two)
+			if !sameS(got2, firstN(2, want)) {
+				mon.fail(opIx, "IteratePurchaseOrders stopped after 2 does not give the two lowest stored ids")
+			}
+			add("pos_stop", "EoPOsStop "+txt2)
+		case 11, 12:
+			k.AddPoToRaisedQueue(ctx, id)
+			raised[id] = true
+			add("add_raised", "EoAddRaised "+coqU(id))
+		case 13:
+			got := k.PurchaseOrderIsInRaisedQueue(ctx, id)
+			if got != raised[id] {
+				mon.fail(opIx, "PurchaseOrderIsInRaisedQueue(%d) = %v, shadow %v", id, got, raised[id])
+			}
+			add("in_raised", fmt.Sprintf("EoInRaised %s %s", coqU(id), coqBool(got)))
+		case 14:
+			k.RemovePurchaseOrderFromRaisedQueue(ctx, id)
+			delete(raised, id)
+			add("rem_raised", "EoRemRaised "+coqU(id))
+		case 15:
+			got := k.GetAllRaisedPurchaseOrders(ctx)
+			want := sortedKeysU(raised)
+			if !sameU(got, want) {
+				mon.fail(opIx, "GetAllRaisedPurchaseOrders = %v, queued (ascending) %v", got, want)
+			}
+			add("all_raised", "EoAllRaised "+coqUList(got))
+			var two []uint64
+			k.IterateRaisedQueue(ctx, func(x uint64) bool { two = append(two, x); return len(two) >= 2 })
+			if !sameU(two, want[:min(2, len(want))]) {
+				mon.fail(opIx, "IterateRaisedQueue stopped after 2 = %v, queued (ascending) %v", two, want)
+			}
+			add("raised_stop", "EoRaisedStop "+coqUList(two))
+		case 16, 17:
+			k.AddPoToAcceptedQueue(ctx, id)
+			accepted[id] = true
+			add("add_accepted", "EoAddAccepted "+coqU(id))
+		case 18:
+			got := k.PurchaseOrderIsInAcceptedQueue(ctx, id)
+			if got != accepted[id] {
+				mon.fail(opIx, "PurchaseOrderIsInAcceptedQueue(%d) = %v, shadow %v", id, got, accepted[id])
+			}
+			add("in_accepted", fmt.Sprintf("EoInAccepted %s %s", coqU(id), coqBool(got)))
+		case 19:
+			k.RemovePurchaseOrderFromAcceptedQueue(ctx, id)
+			delete(accepted, id)
+			add("rem_accepted", "EoRemAccepted "+coqU(id))
+		case 20:
+			got := k.GetAllAcceptedPurchaseOrders(ctx)
+			want := sortedKeysU(accepted)
+			if !sameU(got, want) {
+				mon.fail(opIx, "GetAllAcceptedPurchaseOrders = %v, queued (ascending) %v", got, want)
+			}
+			add("all_accepted", "EoAllAccepted "+coqUList(got))
+			var one []uint64
+			k.IterateAcceptedQueue(ctx, func(x uint64) bool { one = append(one, x); return true })
+			if !sameU(one, want[:min(1, len(want))]) {
+				mon.fail(opIx, "IterateAcceptedQueue stopped at the first = %v, queued (ascending) %v", one, want)
+			}
+			add("accepted_stop", "EoAcceptedStop "+coqUList(one))
+		case 21, 22:
+			err := k.AddAddressToWhitelist(ctx, a)
+			if (err == nil) != (len(a) > 0) {
+				mon.fail(opIx, "AddAddressToWhitelist(%s): error %v", hexShort(a), err)
+			}
+			if err == nil {
+				wl[string(a)] = true
+			}
+			add("wl_add", fmt.Sprintf("EoWlAdd %s %s", ar, coqBool(err == nil)))
+		case 23, 40:
+			if r.chance(1, 5) {
+				a, ar = nil, "[]"
+			}
+			err := k.RemoveAddressFromWhitelist(ctx, a)
+			if (err == nil) != (len(a) > 0) {
+				mon.fail(opIx, "RemoveAddressFromWhitelist(%s): error %v", hexShort(a), err)
+			}
+			if err == nil {
+				delete(wl, string(a))
+			}
+			add("wl_remove", fmt.Sprintf("EoWlRemove %s %s", ar, coqBool(err == nil)))
+		case 24:
+			got := k.AddressIsWhitelisted(ctx, a)
+			if got != wl[string(a)] {
+				mon.fail(opIx, "AddressIsWhitelisted(%s) = %v, shadow %v", hexShort(a), got, wl[string(a)])
+			}
+			add("wl_is", fmt.Sprintf("EoWlIs %s %s", ar, coqBool(got)))
+		case 25:
+			got := k.GetAllWhitelistedAddresses(ctx)
+			want := sortedAddrs(func(s string) bool { return wl[s] })
+			var xs []string
+			for j, s := range got {
+				xs = append(xs, coqZi(int64(entIx(s))))
+				if j >= len(want) || sdk.AccAddress(want[j]).String() != s {
+					mon.fail(opIx, "GetAllWhitelistedAddresses entry %d is %s: not the ascending listing of the whitelisted addresses", j, s)
+				}
+			}
+			if len(got) != len(want) {
+				mon.fail(opIx, "GetAllWhitelistedAddresses lists %d of %d whitelisted addresses", len(got), len(want))
+			}
+			add("wl_all", "EoWlAll ["+strings.Join(xs, "; ")+"]")
+			var two [][]byte
+			k.IterateWhitelist(ctx, func(x sdk.AccAddress) bool { two = append(two, append([]byte{}, x...)); return len(two) >= 2 })
+			var ys []string
+			for j, x := range two {
+				ys = append(ys, entRef(x))
+				if j >= len(want) || want[j] != string(x) {
+					mon.fail(opIx, "IterateWhitelist stopped after 2: entry %d is not the ascending listing", j)
+				}
+			}
+			if len(two) != min(2, len(want)) {
+				mon.fail(opIx, "IterateWhitelist stopped after 2 visits %d entries of %d", len(two), len(want))
+			}
+			add("wl_stop", "EoWlStop ["+strings.Join(ys, "; ")+"]")
+		case 26:
+			if r.chance(1, 2) { // mostly read: the default before any Set is the interesting answer
+				got := coqCoin(k.GetTotalLockedUnd(ctx))
+				want := zeroCoin()
+				if totalLocked != nil {
+					want = coqCoin(*totalLocked)
+				}
+				if got != want {
+					mon.fail(opIx, "GetTotalLockedUnd = %s, expected %s (stored: %v)", got, want, totalLocked != nil)
+				}
+				add("get_total_locked", "EoGetTotalLocked "+got)
+				break
+			}
+			cn := randCoin(r.chance(1, 4))
+			if err := k.SetTotalLockedUnd(ctx, cn); err != nil {
+				panic(err)
+			}
+			totalLocked = &cn
+			add("set_total_locked", "EoSetTotalLocked "+coqCoin(cn))
+		case 27:
+			got := coqCoin(k.GetTotalLockedUnd(ctx))
+			want := zeroCoin()
+			if totalLocked != nil {
+				want = coqCoin(*totalLocked)
+			}
+			if got != want {
+				mon.fail(opIx, "GetTotalLockedUnd = %s, expected %s (stored: %v)", got, want, totalLocked != nil)
+			}
+			add("get_total_locked", "EoGetTotalLocked "+got)
+		case 28:
+			if r.chance(1, 2) {
+				got := coqCoin(k.GetTotalSpentEFUND(ctx))
+				want := zeroCoin()
+				if totalSpent != nil {
+					want = coqCoin(*totalSpent)
+				}
+				if got != want {
+					mon.fail(opIx, "GetTotalSpentEFUND = %s, expected %s (stored: %v)", got, want, totalSpent != nil)
+				}
+				add("get_total_spent", "EoGetTotalSpent "+got)
+				break
+			}
+			cn := randCoin(r.chance(1, 4))
+			if err := k.SetTotalSpentEFUND(ctx, cn); err != nil {
+				panic(err)
+			}
+			totalSpent = &cn
+			add("set_total_spent", "EoSetTotalSpent "+coqCoin(cn))
+		case 29:
+			got := coqCoin(k.GetTotalSpentEFUND(ctx))
+			want := zeroCoin()
+			if totalSpent != nil {
+				want = coqCoin(*totalSpent)
+			}
+			if got != want {
+				mon.fail(opIx, "GetTotalSpentEFUND = %s, expected %s (stored: %v)", got, want, totalSpent != nil)
+			}
+			add("get_total_spent", "EoGetTotalSpent "+got)
+		case 30, 31, 32:
+			l := enttypes.LockedUnd{Owner: randOwner(), Amount: randCoin(r.chance(1, 2))}
+			ix := entIx(l.Owner)
+			err := k.SetLockedUndForAccount(ctx, l)
+			if (err == nil) != (ix >= 0 && !l.Amount.IsNegative()) {
+				mon.fail(opIx, "SetLockedUndForAccount(%v): error %v", l, err)
+			}
+			if err == nil {
+				key := string(entAddrs[ix])
+				locked[key], lockedAmt[key], lockedPos[key] = coqLocked(l), coqCoin(l.Amount), l.Amount.IsPositive()
+			}
+			add("set_locked", fmt.Sprintf("EoSetLocked %s %s", coqLocked(l), coqBool(err == nil)))
+		case 33, 34:
+			got := k.GetLockedUndForAccount(ctx, a)
+			want, has := locked[string(a)]
+			wantAmt, wantPos := lockedAmt[string(a)], lockedPos[string(a)]
+			if !has {
+				want = fmt.Sprintf("(mk_go_LockedUnd %s %s)", coqZi(int64(entIx(sdk.AccAddress(a).String()))), zeroCoin())
+				wantAmt = zeroCoin()
+			}
+			if coqLocked(got) != want {
+				mon.fail(opIx, "GetLockedUndForAccount(%s) = %s, expected %s (stored: %v)", hexShort(a), coqLocked(got), want, has)
+			}
+			add("get_locked", fmt.Sprintf("EoGetLocked %s %s", ar, coqLocked(got)))
+			if g := k.AccountHasLockedUnd(ctx, a); g != has {
+				mon.fail(opIx, "AccountHasLockedUnd(%s) = %v, stored %v", hexShort(a), g, has)
+			}
+			add("has_locked", fmt.Sprintf("EoHasLocked %s %s", ar, coqBool(has)))
+			isl := k.IsLocked(ctx, a)
+			if isl != wantPos {
+				mon.fail(opIx, "IsLocked(%s) = %v, stored amount positive: %v", hexShort(a), isl, wantPos)
+			}
+			add("is_locked", fmt.Sprintf("EoIsLocked %s %s", ar, coqBool(isl)))
+			amt := coqCoin(k.GetLockedUndAmountForAccount(ctx, a))
+			if amt != wantAmt {
+				mon.fail(opIx, "GetLockedUndAmountForAccount(%s) = %s, expected %s", hexShort(a), amt, wantAmt)
+			}
+			add("locked_amt", fmt.Sprintf("EoLockedAmt %s %s", ar, amt))
+		case 35:
+			all := k.GetAllLockedUnds(ctx)
+			want := sortedAddrs(func(s string) bool { _, ok := locked[s]; return ok })
+			var xs []string
+			for j, l := range all {
+				xs = append(xs, coqLocked(l))
+				if j >= len(want) || locked[want[j]] != coqLocked(l) {
+					mon.fail(opIx, "GetAllLockedUnds entry %d (%v) is not the ascending listing of what was stored", j, l)
+				}
+			}
+			if len(all) != len(want) {
+				mon.fail(opIx, "GetAllLockedUnds lists %d of %d stored records", len(all), len(want))
+			}
+			add("all_locked", "EoAllLocked ["+strings.Join(xs, "; ")+"]")
+		case 36, 37:
+			sp := enttypes.SpentEFUND{Owner: randOwner(), Amount: randCoin(r.chance(1, 4))}
+			ix := entIx(sp.Owner)
+			err := k.SetSpentEFUNDForAccount(ctx, sp)
+			if (err == nil) != (ix >= 0) {
+				mon.fail(opIx, "SetSpentEFUNDForAccount(%v): error %v", sp, err)
+			}
+			if err == nil {
+				key := string(entAddrs[ix])
+				spent[key], spentAmt[key] = coqSpent(sp), coqCoin(sp.Amount)
+			}
+			add("set_spent", fmt.Sprintf("EoSetSpent %s %s", coqSpent(sp), coqBool(err == nil)))
+		case 38:
+			got := k.GetSpentEFUNDForAccount(ctx, a)
+			want, has := spent[string(a)]
+			wantAmt := spentAmt[string(a)]
+			if !has {
+				want = fmt.Sprintf("(mk_go_SpentEFUND %s %s)", coqZi(int64(entIx(sdk.AccAddress(a).String()))), zeroCoin())
+				wantAmt = zeroCoin()
+			}
+			if coqSpent(got) != want {
+				mon.fail(opIx, "GetSpentEFUNDForAccount(%s) = %s, expected %s (stored: %v)", hexShort(a), coqSpent(got), want, has)
+			}
+			add("get_spent", fmt.Sprintf("EoGetSpent %s %s", ar, coqSpent(got)))
+			if g := k.AccountHasSpentEFUND(ctx, a); g != has {
+				mon.fail(opIx, "AccountHasSpentEFUND(%s) = %v, stored %v", hexShort(a), g, has)
+			}
+			add("has_spent", fmt.Sprintf("EoHasSpent %s %s", ar, coqBool(has)))
+			amt := coqCoin(k.GetSpentEFUNDAmountForAccount(ctx, a))
+			if amt != wantAmt {
+				mon.fail(opIx, "GetSpentEFUNDAmountForAccount(%s) = %s, expected %s", hexShort(a), amt, wantAmt)
+			}
+			add("spent_amt", fmt.Sprintf("EoSpentAmt %s %s", ar, amt))
+		default:
+			all := k.GetAllSpentEFUNDs(ctx)
+			want := sortedAddrs(func(s string) bool { _, ok := spent[s]; return ok })
+			var xs []string
+			for j, l := range all {
+				xs = append(xs, coqSpent(l))
+				if j >= len(want) || spent[want[j]] != coqSpent(l) {
+					mon.fail(opIx, "GetAllSpentEFUNDs entry %d (%v) is not the ascending listing of what was stored", j, l)
+				}
+			}
+			if len(all) != len(want) {
+				mon.fail(opIx, "GetAllSpentEFUNDs lists %d of %d stored records", len(all), len(want))
+			}
+			add("all_spent", "EoAllSpent ["+strings.Join(xs, "; ")+"]")
+		}
+	}
+	return ops
+}
+
+// VERIF_STORE_EMPTY_SIGNER=1: also generate enterprise parameters whose signer list has an EMPTY element
+// ("addr," - strings.Split gives ""), rendered as go_zero_addr (the model's empty string).  See the report: the real
+// validation refuses it (sdk.AccAddressFromBech32("") errs), the model's ent_AccAddressFromBech32 accepts go_zero_addr.
+var emptySignerElems = os.Getenv("VERIF_STORE_EMPTY_SIGNER") == "1"
+
 func cmdStore(args []string) {
 	fs := flag.NewFlagSet("store", flag.ExitOnError)
 	out := fs.String("out", ".", "output directory")
@@ -464,7 +1479,7 @@ func cmdStore(args []string) {
 			files = append(files, name)
 		}
 	}
-	var wh, sh [][]string
+	var wh, sh, bh, eh [][]string
 	for i := 0; i < *n; i++ {
 		mon.hist = i
 		wh = append(wh, wrkStoreHistory(c, r, *nops, mon, kinds))
@@ -473,18 +1488,36 @@ func cmdStore(args []string) {
 		mon.hist = *n + i
 		sh = append(sh, strStoreHistory(c, r, *nops, mon, kinds))
 	}
+	for i := 0; i < *n; i++ {
+		mon.hist = 2**n + i
+		bh = append(bh, bcnStoreHistory(c, r, *nops, mon, kinds))
+	}
+	for i := 0; i < *n; i++ {
+		mon.hist = 3**n + i
+		eh = append(eh, entStoreHistory(c, r, *nops, mon, kinds))
+	}
 	emit("wrk", "GeneratedWrkchainTypes model.StoreCheckWrk", "wst_bad_corr", wh, nil)
 	emit("str", "GeneratedStreamTypes model.StoreCheckStr", "sst_bad_corr", sh, strAddrDefs)
+	emit("bcn", "GeneratedBeaconTypes model.StoreCheckBcn", "bst_bad_corr", bh, nil)
+	emit("ent", "GeneratedEnterpriseTypes model.StoreCheckEnt", "est_bad_corr addr_table", eh, entAddrDefs)
 	if len(wh) > 0 && len(wh[0]) > 3 {
 		samples = append(samples, wh[0][2], wh[0][3])
 	}
 	if len(sh) > 0 && len(sh[0]) > 3 {
 		samples = append(samples, sh[0][2], sh[0][3])
 	}
+	if len(bh) > 0 && len(bh[0]) > 3 {
+		samples = append(samples, bh[0][2], bh[0][3])
+	}
+	if len(eh) > 0 && len(eh[0]) > 3 {
+		samples = append(samples, eh[0][2], eh[0][3])
+	}
 	writeJSON(filepath.Join(*out, "stats_store.json"), map[string]interface{}{
 		"files": files, "evaluations": total, "distinct_nontrivial": len(distinct),
-		"rule":         "sequences of real keeper store-accessor calls of x/wrkchain (params, highest id, WRKChains, storage limits, block records: set / get / has / listings ascending, descending, paginated, early stop, lowest height in state) and x/stream (params, streams keyed by address pairs of 1..255 bytes incl. byte-prefixes of one another: set / get / is / delete / listing with the pair parsed from the key, unencodable times) on a cached context of the real application; ids and heights from a boundary pool (1..4, 2^8, 2^16, 2^32, 2^63, 2^64-1); the translated accessors replay each sequence from the empty store (vm_compute) and a Go shadow map decides read-your-write / non-interference / listing completeness on the implementation",
-		"distribution": map[string]interface{}{"by_kind": kinds, "histories_per_module": *n, "ops_per_history": *nops},
-		"samples":      samples, "go_monitor_failures": append([]monFailure{}, mon.fails...),
+		"rule":          "(x/beacon and x/enterprise: see rule_bcn_ent) sequences of real keeper store-accessor calls of x/wrkchain (params, highest id, WRKChains, storage limits, block records: set / get / has / listings ascending, descending, paginated, early stop, lowest height in state) and x/stream (params, streams keyed by address pairs of 1..255 bytes incl. byte-prefixes of one another: set / get / is / delete / listing with the pair parsed from the key, unencodable times) on a cached context of the real application; ids and heights from a boundary pool (1..4, 2^8, 2^16, 2^32, 2^63, 2^64-1); the translated accessors replay each sequence from the empty store (vm_compute) and a Go shadow map decides read-your-write / non-interference / listing completeness on the implementation",
+		"distribution":  map[string]interface{}{"by_kind": kinds, "histories_per_module": *n, "ops_per_history": *nops},
+		"rule_bcn_ent":  "x/beacon (params valid / refused, highest id, beacons, storage limits, timestamps: set / get / is-recorded / listings ascending, descending, early stop) and x/enterprise (params valid / refused, highest purchase order id, purchase orders incl. refused statuses, raised and accepted queues, whitelist incl. the empty address, total locked / spent incl. the default before any Set, locked / spent per account incl. refused owners and negative amounts, defaults for accounts with nothing stored) the same way; half of the histories start from the wiped module store (nothing set: the defaults show), the other half re-play the genesis content of the store through the keeper; enterprise addresses come from a table of 11 addresses of 1..255 bytes (the six accounts, a byte-prefix and an extension of one of them) emitted with the cases",
+		"genesis_notes": storeGenesisNotes,
+		"samples":       samples, "go_monitor_failures": append([]monFailure{}, mon.fails...),
 	})
 }
